@@ -261,6 +261,40 @@ func genC06(g *Gen, idx int) *Plan {
 		p.Cfg.SN.MaxLatUs = g.Range(200, 3000)
 		sg = sg2
 	}
+	if p.Family == "C06-gw" && g.Bool(0.3) {
+		// the same collision around a sleep: the client falls asleep right after its request, the broker's
+		// exchange with the same id and then the reply to the client's request wait in the sleep buffer;
+		// after the wake-up the first copy of the broker's packet is lost, so the gateway has to retransmit it
+		p.Family = "C06-gw-sleep"
+		sg3 := &sessGen{g: g, cid: "c1"}
+		sg3.gap(5, 200)
+		sg3.add(connectPkt("c1", 60, false, true))
+		sg3.gap(1200, 1600)
+		if m >= 0xFFFE {
+			m = uint16(g.Range(1, 40))
+		}
+		q := uint8(1 + g.Intn(2))
+		sg3.add(refsn.Pkt{Type: refsn.PUBLISH, TIT: refsn.TITShort, TopicID: refsn.ShortID("ab"), QoS: q, MsgID: m, Data: []byte("mine")})
+		t1 := sg3.t
+		sg3.gap(2, 30)
+		sg3.add(refsn.Pkt{Type: refsn.DISCONNECT, HasDur: true, Duration: uint16(g.Range(5, 20))})
+		p.Broker.AnswerDelayMs = g.Range(300, 800)
+		p.Broker.Injects = []BrokerInject{{AtMs: g.Range(sg3.t+40, t1+p.Broker.AnswerDelayMs-40), Session: "p1", Force: true, Topic: "ab", Payload: []byte("theirs"), QoS: uint8(1 + g.Intn(2)), ID: m}}
+		sg3.gap(1500, 3000)
+		if g.Bool(0.6) {
+			sg3.add(connectPkt("c1", 60, false, false))
+		} else {
+			sg3.add(refsn.Pkt{Type: refsn.PINGREQ, Data: []byte("c1")})
+			sg3.gap(300, 600)
+			sg3.add(connectPkt("c1", 60, false, false))
+		}
+		sg3.gap(500, 900)
+		p.Peers = []PeerPlan{{Name: "p1", Ops: sg3.ops}}
+		if g.Bool(0.7) {
+			p.Cfg.SN.Rules = []Rule{{Dir: "g2c", Class: "PUBLISH", Count: 1, Act: "drop"}}
+		}
+		sg = sg3
+	}
 	p.Cfg.HorizonMs = sg.t + cfg.RetryDelayMs*int64(cfg.RetryCount+2) + 9000
 	return p
 }
@@ -816,7 +850,7 @@ func genC25(g *Gen, idx int) *Plan {
 
 func init() {
 	Register(&Check{ID: "C06", Level: "exploration",
-		Rule:   "gateway side: a raw peer's PUBLISH QoS 1/2 or SUBSCRIBE with id m is held open by a slow broker while the broker starts PUBLISH QoS 1/2 (with and without REGISTER step) with the same id m (incl. 0xFFFF/0xFFFE, the ids the gateway itself picks for the REGISTER before a QoS 0 publish, with such publishes in flight), or the peer reuses the id of its QoS 1 PUBLISH the moment the PUBACK is in (reactive peer); client side: Publish QoS 1/2, Register or Subscribe of the real client (id 2) is held open by a delayed acknowledgement while the scripted gateway starts PUBLISH QoS 1/2 or REGISTER with id 2; both exchanges must complete; non-trivial = two exchanges with equal id overlapping in time",
+		Rule:   "gateway side: a raw peer's PUBLISH QoS 1/2 or SUBSCRIBE with id m is held open by a slow broker while the broker starts PUBLISH QoS 1/2 (with and without REGISTER step) with the same id m (incl. 0xFFFF/0xFFFE, the ids the gateway itself picks for the REGISTER before a QoS 0 publish, with such publishes in flight), or the peer reuses the id of its QoS 1 PUBLISH the moment the PUBACK is in (reactive peer), or the collision happens around a sleep (request, DISCONNECT(d), the broker's packet and then the reply queued, first copy after the wake-up lost); client side: Publish QoS 1/2, Register or Subscribe of the real client (id 2) is held open by a delayed acknowledgement while the scripted gateway starts PUBLISH QoS 1/2 or REGISTER with id 2; both exchanges must complete; non-trivial = two exchanges with equal id overlapping in time",
 		Gen:    genC06, Oracle: oracleC06, Quick: 600, Thorough: 40000})
 	Register(&Check{ID: "C15", Level: "exploration",
 		Rule:   "2-4 concurrent raw peers with independent keyed workloads, credentials, registrations, malformed packets and deaths; structural oracle (one broker connection per session, no tagged payload/client id/credential of peer i on peer j's links) in every run; differential oracle in every second run (yield density 0): each peer's per-channel trace alone must equal its trace next to the others (two solo executions must agree, else the comparison is void); non-trivial = >= 2 peers",
